@@ -208,6 +208,80 @@ def _desugar_any_all(B, cb, C, which):
     _splice(B, stub, C)
 
 
+def _desugar_filter(B, fb, C, log=None):
+    """`for x in it.filter(pred) { body }` with the closure built in this body becomes `for x in it { if pred(&x) { body } }`:
+    the filter call hands the inner iterator on, every `next()` on the filtered iterator becomes `next()` on the inner one followed
+    by the predicate's blocks, and a rejected item goes back to the loop's head like `continue`.  Returns the number of next() calls
+    rewritten (0: nothing was changed)."""
+    t = B.blocks[fb]["term"]
+    gargs = t["callee"].get("gargs") or []
+    if len(gargs) != 2 or len(t["args"]) != 2 or len(t["dest"]) != 1 or not isinstance(t.get("t"), int):
+        return 0
+    fty = "std::iter::Filter<%s, %s>" % (gargs[0], gargs[1])
+    nexts = [bb for bb, x in enumerate(B.blocks) if x["term"] is not None and x["term"]["k"] == "call" and not x.get("cleanup") and
+             (x["term"]["callee"].get("decl") or "") == "std::iter::Iterator::next" and (x["term"]["callee"].get("gargs") or [None])[0] == fty and
+             isinstance(x["term"].get("t"), int) and len(x["term"]["dest"]) == 1]
+    if not nexts:
+        return 0
+    sp = t["sp"]
+    clo = t["args"][1].get("m") or t["args"][1].get("c")
+    keep = len(B.locals)
+    B.locals.append({"ty": gargs[1], "mut": True})
+    # loop heads, to send a rejected item back to (computed before the rewrite)
+    from .cfg import CFG
+    cfg0 = CFG(B)
+    heads = {}
+    for nb in nexts:
+        h = nb
+        loops = [l for l in (cfg0.natural_loop(e) for e in cfg0.back_edges()) if nb in l]
+        if loops:
+            inner = min(loops, key=len)
+            hs = [e[1] for e in cfg0.back_edges() if cfg0.natural_loop(e) == inner]
+            if hs:
+                x, okp = hs[0], True
+                for _ in range(6):          # the head must lead straight to the next() call
+                    if x == nb:
+                        break
+                    sx = cfg0.succ[x]
+                    if len(sx) != 1:
+                        okp = False
+                        break
+                    x = sx[0]
+                if okp and x == nb:
+                    h = hs[0]
+        heads[nb] = h
+    B.blocks[fb] = {"stmts": list(B.blocks[fb]["stmts"]) + [{"p": (keep,), "rv": {"k": "use", "op": t["args"][1]}, "sp": sp},
+                                                          {"p": tuple(t["dest"]), "rv": {"k": "use", "op": t["args"][0]}, "sp": sp}],
+                    "term": {"k": "goto", "t": t["t"]}, **({"cleanup": True} if B.blocks[fb].get("cleanup") else {})}
+    nxt = {"decl": "std::iter::Iterator::next", "gargs": [gargs[0]], "trait": "std::iter::Iterator",
+           "resolved": "<%s as std::iter::Iterator>::next" % re.sub(r"<.*$", "<'a, T>", gargs[0]), "local": False}
+    for nb in nexts:
+        nt = dict(B.blocks[nb]["term"])
+        opt = nt["dest"][0]
+        T0 = nt["t"]
+        lo = len(B.locals)
+        for ty in ("isize", "&?", "&mut " + gargs[1], "bool"):
+            B.locals.append({"ty": ty, "mut": True})
+        D, ITEMREF, ENVREF, RES = lo, lo + 1, lo + 2, lo + 3
+        bo = len(B.blocks)
+        SW, BODY, TEST, STUB = bo, bo + 1, bo + 2, bo + 3
+        nt["callee"] = nxt
+        nt["t"] = SW
+        B.blocks[nb] = {"stmts": B.blocks[nb]["stmts"], "term": nt}
+        B.blocks.append({"stmts": [{"p": (D,), "rv": {"k": "discr", "place": (opt,), "ty": "isize"}, "sp": sp}],
+                         "term": {"k": "switch", "discr": {"m": (D,)}, "targets": [(0, T0)], "otherwise": BODY, "ty": "isize"}})
+        B.blocks.append({"stmts": [{"p": (ITEMREF,), "rv": {"k": "ref", "bk": "shared", "place": (opt, "@Some", ".0")}, "sp": sp},
+                                   {"p": (ENVREF,), "rv": {"k": "ref", "bk": "mut", "place": (keep,)}, "sp": sp}],
+                         "term": {"k": "goto", "t": STUB}})
+        B.blocks.append({"stmts": [], "term": {"k": "switch", "discr": {"m": (RES,)}, "targets": [(0, heads[nb])], "otherwise": T0, "ty": "bool"}})
+        B.blocks.append({"stmts": [], "term": {"k": "call", "args": [{"m": (ENVREF,)}, {"m": (ITEMREF,)}], "dest": (RES,), "t": TEST, "sp": sp}})
+        _splice(B, STUB, C)
+    B._names = None
+    B._cfg = None
+    B._defs = None
+    return len(nexts)
+
+
 def _succs(t):
     if t is None:
         return []
@@ -1025,6 +1099,38 @@ def inline_program(P):
         for bb, C, which in todo:
             _desugar_any_all(B, bb, C, which)
             log.append("%s: %s(closure) rewritten as the loop it abbreviates" % (fid, which))
+    # `for x in it.filter(pred)` in bodies that differ from the reviewed tree (or received inlined code): rewritten as the loop with
+    # an `if` it abbreviates, so that a test moved into the adaptor is still a test in the loop
+    try:
+        from .spec.known_functions import BODY_HASH as _BH
+    except ImportError:
+        _BH = None
+    for fid in (list(bodies) if (DESUGAR_ADAPTORS and _BH is not None) else ()):
+        B = get(fid)
+        if "::test" in fid or B.kind in ("const", "static", "assoc_const") or len(B.blocks) >= 900:
+            continue
+        if fid not in changed and body_hash(bodies[fid]) in _BH.get(fid, ()):
+            continue
+        made = {}
+        for bb, idx, st in B.stmts(cleanup=True):
+            rv = st.get("rv")
+            if rv and rv["k"] == "agg" and rv["akind"] == "closure" and len(st["p"]) == 1:
+                made[st["p"][0]] = rv["def"]
+        todo = []
+        for bb, t in B.calls(cleanup=False):
+            if (t["callee"].get("decl") or "") == "std::iter::Iterator::filter" and len(t["args"]) == 2:
+                pl = t["args"][1].get("m") or t["args"][1].get("c")
+                if pl is not None and len(pl) == 1 and pl[0] in made and made[pl[0]] in bodies:
+                    C = get(made[pl[0]])
+                    if C.arg_count == 2 and len(C.blocks) <= MAX_CALLEE_BLOCKS and not any(x["k"] == "yield" for _, x in C.terms(cleanup=True)):
+                        todo.append((bb, C))
+        for bb, C in todo:
+            if fid not in changed:
+                B = _clone_body(B)
+                changed[fid] = B
+            k = _desugar_filter(B, bb, C)
+            if k:
+                log.append("%s: filter(closure) over %d next() call(s) rewritten as the loop with a test it abbreviates" % (fid, k))
     # bodies whose code differs from the reviewed tree's get the same normalisation as bodies that received inlined code: an edit
     # that routes a decision through a local (`let reason = if a { Some(..) } else { None }; match reason { .. }`) turned a
     # dominance fact into value flow, and threading the constant jumps turns it back.  Unchanged bodies are left exactly as they are.
